@@ -2,6 +2,7 @@ CONSTANTS
   Logs = FALSE
   RecordHist = TRUE
   MaxInt = 0
+  Grow = FALSE
   AllowDie = TRUE
 SPECIFICATION Spec
 INVARIANT PrintSchedule
